@@ -4,7 +4,7 @@
    (tied to the skeleton object files by harness/statics.py, which regenerates
    Gen_Statics.v on every run of bin/vcheck C19). *)
 From Coq Require Import List PArith Bool.
-From A1 Require Import Conc.Reach Conc.ReachProofs Conc.Interleave Conc.InterleaveProofs Conc.Link.
+From A1 Require Import Conc.Reach Conc.ReachProofs Conc.Interleave Conc.InterleaveProofs Conc.Link Conc.Descr.
 Import ListNotations.
 
 (* -- the closure computed by the checker is graph reachability -- *)
@@ -95,3 +95,43 @@ Theorem C19_statics_imply_irrelevant :
             forall l, cls l = Priv t -> st (run sch (init m0 (prog calls))) l = fst (solo (prog calls t) m0) l.
 Proof. exact statics_imply_irrelevant. Qed.
 Print Assumptions C19_statics_imply_irrelevant.
+
+(* -- "type descriptors are read-only" as an explicit hypothesis (Conc/Descr.v).
+      The tables are writable memory (class SW is allowed for them); what is
+      assumed is [descr_unchanged]: no call has a table location in its write
+      set.  harness/c19drv.c ties it to the code: the writable image of the
+      skeleton + generated objects is mapped read-only before first use and every
+      operation is run on every type; a store faults and is reported. -- *)
+
+(* along every interleaving (complete or not) the tables keep their initial contents *)
+Theorem C19_descr_invariant : forall (D : loc -> bool) (P : tid -> list step) m0,
+  (forall t s, In s (P t) -> descr_unchanged D s) ->
+  forall sch l, D l = true -> st (run sch (init m0 P)) l = m0 l.
+Proof. exact descr_invariant. Qed.
+Print Assumptions C19_descr_invariant.
+
+(* the hypothesis cannot be dropped: a step that "resolves once" into a table slot *)
+Theorem C19_descr_write_breaks :
+  ~ descr_unchanged ex_D ex_patch /\
+  st (run [0] (init (fun _ => 0) (fun t => match t with O => [ex_patch] | _ => [] end))) 9%positive <> 0.
+Proof. exact descr_write_breaks. Qed.
+Print Assumptions C19_descr_write_breaks.
+
+(* the tie, refined: with [descr_unchanged] for every call, the footprint assumption
+   about the relocation view is needed only for shared writable locations OUTSIDE the
+   tables; conclusion = interleaving irrelevant + tables constant *)
+Theorem C19_statics_and_descr_imply_irrelevant :
+  forall (F : facts) (cls : loc -> region) (D : loc -> bool) (obj_of : loc -> option id)
+         (calls : tid -> list (id * step)) (m0 : store),
+  (forall t f s, In (f, s) (calls t) -> In f (f_entries F)) ->
+  (forall t f s, In (f, s) (calls t) -> step_ok s /\ respects cls t s) ->
+  (forall t f s, In (f, s) (calls t) -> descr_unchanged D s) ->
+  (forall t f s l, In (f, s) (calls t) -> In l (writes s) -> cls l = SW -> D l = false ->
+     exists o, obj_of l = Some o /\ path (f_edges F) [f] o /\ flagged F o = true) ->
+  no_writable_reachable F = true ->
+  (forall sch, completes sch m0 (prog calls) ->
+   forall t, trace (run sch (init m0 (prog calls))) t = snd (solo (prog calls t) m0) /\
+             forall l, cls l = Priv t -> st (run sch (init m0 (prog calls))) l = fst (solo (prog calls t) m0) l) /\
+  (forall sch l, D l = true -> st (run sch (init m0 (prog calls))) l = m0 l).
+Proof. exact statics_and_descr_imply_irrelevant. Qed.
+Print Assumptions C19_statics_and_descr_imply_irrelevant.
